@@ -5,6 +5,9 @@
 #include "aln_param.h"
 
 #include "aln_struct.h"
+#ifdef KALIGN_VERIF
+#include "kalign_verif.h"
+#endif
 
 #define ALN_PROFILEPROFILE_IMPORT
 #include "aln_profileprofile.h"
@@ -15,6 +18,9 @@
 
 int aln_profileprofile_foward(struct aln_mem* m)
 {
+#ifdef KALIGN_VERIF
+        kv_dp(KV_FWD_BEGIN, m);
+#endif
         unsigned int freq[24];
         const float* restrict prof1 = m->prof1;
         const float* restrict prof2 = m->prof2;
@@ -145,11 +151,17 @@ int aln_profileprofile_foward(struct aln_mem* m)
 
         }
         //prof1 -=  (m->enda) << 6;
+#ifdef KALIGN_VERIF
+        kv_dp(KV_FWD_END, m);
+#endif
         return OK;
 }
 
 int aln_profileprofile_backward(struct aln_mem* m)
 {
+#ifdef KALIGN_VERIF
+        kv_dp(KV_BWD_BEGIN, m);
+#endif
         unsigned int freq[24];
         struct states* restrict s = m->b;
         const float* restrict prof1 = m->prof1;
@@ -281,12 +293,18 @@ int aln_profileprofile_backward(struct aln_mem* m)
 
                 //pa = ca;
         }
+#ifdef KALIGN_VERIF
+        kv_dp(KV_BWD_END, m);
+#endif
         return OK;
 }
 
 
 int aln_profileprofile_meetup(struct aln_mem* m,int old_cor[], int* meet,int* t,float* score)
 {
+#ifdef KALIGN_VERIF
+        kv_dp(KV_MEET_BEGIN, m);
+#endif
         struct states* f = m->f;
         struct states* b = m->b;
         int i;
@@ -406,5 +424,8 @@ int aln_profileprofile_meetup(struct aln_mem* m,int old_cor[], int* meet,int* t,
         *t = transition;
         *score = max;
 
+#ifdef KALIGN_VERIF
+        kv_dp(KV_MEET_END, m);
+#endif
         return OK;
 }
